@@ -11,7 +11,9 @@ Split(m) ==
     ELSE [alpha |-> Take(m, Len(m) - t), suf |-> Drop(m, Len(m) - t)]
 
 (* the short form: the leading run of upper-case letters / digits *)
-Short(d) == Take(d, PrefixLen(d, LAMBDA c : IsUpper(c) \/ IsDigit(c), 1))
+RECURSIVE LastStrong(_, _)
+LastStrong(d, k) == IF k = 0 THEN 0 ELSE IF IsUpper(d[k]) \/ IsDigit(d[k]) THEN k ELSE LastStrong(d, k - 1)
+Short(d) == Take(d, LastStrong(d, Len(d)))      \* through the last upper-case letter or digit (for UPPERlower shapes: the upper-case part)
 
 (* keyword comparison (MINimum, MAXimum, INFinity, DEFault, UP, ...): short or long form, any case *)
 Compare(d, c) == EqIC(c, d) \/ EqIC(c, Short(d))
